@@ -34,7 +34,7 @@ from dask.delayed import delayed
 
 PROPERTY = "C48"
 LEVEL = "other"
-BUDGET = {"quick": 240, "thorough": 1800}
+BUDGET = {"quick": 200, "thorough": 1500}
 EXPLANATION = (
     "Bounded symbolic execution of dask.bag's real graph builders, executed with scheduler='sync'. A bag is built from a hand-made graph "
     "{(name, i): [elements]} whose partition structure (number of partitions, length of every partition, empty partitions anywhere) is "
@@ -326,7 +326,7 @@ def agg_sum_list(ps):
 # obligations
 
 
-def mk(name, setup, body, every=9):
+def mk(name, setup, body, every=23):
     def run(e, *args):
         out = []
         with dask.config.set(scheduler="sync"):      # Bag.take(compute=True) computes with the configured default scheduler
@@ -845,13 +845,31 @@ def ob_stats(maxnp, maxn, lo, hi):
 
 
 def _e2e_bags(seq):
-    yield "npartitions=1", db.from_sequence(seq, npartitions=1), seq
-    yield "npartitions=3", db.from_sequence(seq, npartitions=3), seq
-    yield "partition_size=2", db.from_sequence(seq, partition_size=2), seq
-    # empty partitions the way users get them: a filter that empties whole partitions
     big = [x + 1000 if (i // 2) % 3 != 1 else x for i, x in enumerate(seq)]
-    yield "filtered", db.from_sequence(big, partition_size=2).filter(lambda x: x < 500), [x for x in big if x < 500]
-    yield "from_delayed", db.from_delayed([delayed(list)(seq[:1]), delayed(list)([]), delayed(list)(seq[1:])]), seq
+    return [
+        ("npartitions=1", lambda: db.from_sequence(seq, npartitions=1), seq),
+        ("npartitions=3", lambda: db.from_sequence(seq, npartitions=3), seq),
+        ("partition_size=2", lambda: db.from_sequence(seq, partition_size=2), seq),
+        # empty partitions the way users get them: a filter that empties whole partitions (here also the first one)
+        ("filtered", lambda: db.from_sequence(big, partition_size=2).filter(_small), [x for x in big if _small(x)]),
+        ("from_delayed", lambda: db.from_delayed([delayed(list)(seq[:1]), delayed(list)([]), delayed(list)(seq[1:])]), seq),
+    ]
+
+
+def _small(x):
+    return x < 500
+
+
+def _pair_neg(x):
+    return (x, -x)
+
+
+def _rep(x):
+    return [x] * (x % 3)
+
+
+def _as_list(p):
+    return [list(p)]
 
 
 def _req(cond, msg):
@@ -860,65 +878,70 @@ def _req(cond, msg):
 
 
 def e2e_witness(model):
+    """one (constructor, scheduler) combination per witness, chosen by the model"""
     vals = [v for k, v in sorted(model.items()) if k[0] in "xyzw" and k[1:].isdigit()]
     vals = [max(-40, min(40, v)) for v in vals]
     seq = (vals + [v + 1 for v in vals] + [3, -1, 0, 2, 3, 7])[:14]
-    for label, b, ref in _e2e_bags(seq):
-        for sched in ("sync", "threads"):
-            def c(x):
-                return x.compute(scheduler=sched)
-            w = f"[{label}, {sched}, seq={ref}]"
-            _req(c(b) == ref, f"compute {w}")
-            _req(c(b.map(f_affine)) == [f_affine(x) for x in ref], f"map {w}")
-            _req(c(b.filter(is_even)) == [x for x in ref if is_even(x)], f"filter {w}")
-            _req(c(b.remove(is_even)) == [x for x in ref if not is_even(x)], f"remove {w}")
-            _req(c(b.map_partitions(part_rev).count()) == len(ref), f"map_partitions {w}")
-            _req(c(b.map(lambda x: (x, -x)).pluck(1)) == [-x for x in ref], f"pluck {w}")
-            _req(c(b.map(lambda x: (x, 2)).starmap(f_pair)) == [x - 4 for x in ref], f"starmap {w}")
-            _req(c(b.map(lambda x: [x] * (x % 3)).flatten()) == [x for x in ref for _ in range(x % 3)], f"flatten {w}")
-            for se in SE:
-                _req(c(b.sum(split_every=se)) == sum(ref), f"sum {w}")
-                _req(c(b.count(split_every=se)) == len(ref), f"count {w}")
-                _req(c(b.max(split_every=se)) == max(ref) and c(b.min(split_every=se)) == min(ref), f"max/min {w}")
-                _req(c(b.any(split_every=se)) == any(ref) and c(b.all(split_every=se)) == all(ref), f"any/all {w}")
-                _req(c(b.fold(add, initial=0, split_every=se)) == sum(ref), f"fold {w}")
-                _req(c(b.fold(bigger, split_every=se)) == max(ref), f"fold(max) {w}")
-                _req(c(b.reduction(sum, sum, split_every=se)) == sum(ref), f"reduction {w}")
-                _req(c(b.topk(3, split_every=se)) == sorted(ref, reverse=True)[:3], f"topk {w}")
-                _req(c(b.topk(2, key=neg, split_every=se)) == sorted(ref)[:2], f"topk key {w}")
-                _req(dict(c(b.frequencies(split_every=se))) == dict(collections.Counter(ref)), f"frequencies {w}")
-                _req(dict(c(b.foldby(key_mod2, add, 0, split_every=se))) == ref_foldby(key_mod2, add, ref, 0), f"foldby {w}")
-            _req(sorted(c(b.distinct())) == sorted(set(ref)), f"distinct {w}")
-            _req(abs(c(b.mean()) - sum(ref) / len(ref)) < 1e-9, f"mean {w}")
-            m = sum(ref) / len(ref)
-            pv = sum((x - m) ** 2 for x in ref) / len(ref)
-            _req(abs(c(b.var()) - pv) < 1e-6 * max(1, pv) and abs(c(b.std()) - math.sqrt(pv)) < 1e-6 * max(1, pv), f"var/std {w}")
-            sv = sum((x - m) ** 2 for x in ref) / (len(ref) - 1)
-            _req(abs(c(b.var(ddof=1)) - sv) < 1e-6 * max(1, sv), f"var ddof=1 {w}")
-            if c(b.map_partitions(lambda p: [len(list(p))]))[0] > 0:     # accumulate without initial: see the known finding for an empty first partition
-                _req(c(b.accumulate(add)) == list(itertools.accumulate(ref)), f"accumulate {w}")
-            _req(c(b.accumulate(add, initial=1)) == list(itertools.accumulate(ref, initial=1)), f"accumulate initial {w}")
-            for m_ in (1, 2, 5, 9):
-                r = b.repartition(npartitions=m_)
-                _req(r.npartitions == m_ and c(r) == ref, f"repartition({m_}) {w}")
-            _req(c(db.zip(b, b.map(neg))) == [(x, -x) for x in ref], f"zip {w}")
-            _req(c(db.concat([b, b.map(neg)])) == ref + [-x for x in ref], f"concat {w}")
-            _req(sorted(c(b.product(db.from_sequence([1, 2], npartitions=2)))) == sorted(itertools.product(ref, [1, 2])), f"product {w}")
-            _req(sorted(c(b.join([0, 1, 3], key_mod2))) == sorted((o, s) for s in ref for o in [0, 1, 3] if o % 2 == s % 2), f"join {w}")
-            with warnings.catch_warnings():
-                warnings.simplefilter("ignore")
-                first_part = c(b.map_partitions(lambda p: [list(p)]))[0]
-                _req(b.take(3, scheduler=sched) if False else b.take(3) == tuple(first_part[:3]), f"take {w}")
-                _req(b.take(3, npartitions=-1) == tuple(ref[:3]), f"take all {w}")
-            grp = {k: sorted(v) for k, v in c(b.groupby(key_mod2, shuffle="tasks", max_branch=2))}
-            want = {}
-            for x in ref:
-                want.setdefault(x % 2, []).append(x)
-            _req(grp == {k: sorted(v) for k, v in want.items()}, f"groupby tasks {w}")
-        grp = {k: sorted(v) for k, v in b.groupby(key_mod2, shuffle="disk", npartitions=2).compute(scheduler="sync")}
-        _req(grp == {k: sorted(v) for k, v in want.items()}, f"groupby disk [{label}]")
-        r = b.repartition(partition_size=64)
-        _req(r.compute(scheduler="sync") == ref, f"repartition(partition_size) [{label}]")
+    pick = sum(model.values()) + len(model)
+    bags = _e2e_bags(seq)
+    label, mkb, ref = bags[pick % len(bags)]
+    sched = ("sync", "threads")[(pick // len(bags)) % 2]
+    w = f"[{label}, {sched}, seq={ref}]"
+    with dask.config.set(scheduler=sched, num_workers=2), warnings.catch_warnings():
+        warnings.simplefilter("ignore")
+        b = mkb()
+        c = dask.compute
+        parts = c(b.map_partitions(_as_list))[0]
+        got = c(b, b.map(f_affine), b.filter(is_even), b.remove(is_even), b.map_partitions(part_rev), b.map(_pair_neg).pluck(1),
+                b.map(_pair_neg).starmap(f_pair), b.map(_rep).flatten(), b.distinct(), b.mean(), b.var(), b.std(), b.var(ddof=1),
+                b.accumulate(add, initial=1), db.zip(b, b.map(neg)), db.concat([b, b.map(neg)]),
+                b.product(db.from_sequence([1, 2], npartitions=2)), b.join([0, 1, 3], key_mod2),
+                b.groupby(key_mod2, shuffle="tasks", max_branch=2), b.groupby(key_mod2, shuffle="disk", npartitions=2, blocksize=16),
+                b.groupby(key_mod2, shuffle="tasks"))
+        m = sum(ref) / len(ref)
+        pv = sum((x - m) ** 2 for x in ref) / len(ref)
+        sv = sum((x - m) ** 2 for x in ref) / (len(ref) - 1)
+        grp = {}
+        for x in ref:
+            grp.setdefault(x % 2, []).append(x)
+        grp = {k: sorted(v) for k, v in grp.items()}
+        want = (ref, [f_affine(x) for x in ref], [x for x in ref if is_even(x)], [x for x in ref if not is_even(x)],
+                [x for p in parts for x in reversed(p)], [-x for x in ref], [3 * x for x in ref], [x for x in ref for _ in range(x % 3)])
+        names = ("compute", "map", "filter", "remove", "map_partitions", "pluck", "starmap", "flatten")
+        for nm, g, wv in zip(names, got, want):
+            _req(g == wv, f"{nm} = {g}, Python {wv} {w}")
+        (dist, mean, var, std, var1, acc1, zp, cc, prod, jn, g1, g2, g3) = got[8:]
+        _req(sorted(dist) == sorted(set(ref)), f"distinct {w}")
+        _req(abs(mean - m) < 1e-9, f"mean {w}")
+        _req(abs(var - pv) < 1e-6 * max(1, pv) and abs(std - math.sqrt(pv)) < 1e-6 * max(1, pv), f"var/std {var} {std} vs {pv} {w}")
+        _req(abs(var1 - sv) < 1e-6 * max(1, sv), f"var(ddof=1) {var1} vs {sv} {w}")
+        _req(acc1 == list(itertools.accumulate(ref, initial=1)), f"accumulate initial {w}")
+        if parts[0]:     # accumulate without initial and an empty first partition: see the reported finding
+            _req(c(b.accumulate(add))[0] == list(itertools.accumulate(ref)), f"accumulate {w}")
+        _req(zp == [(x, -x) for x in ref], f"zip {w}")
+        _req(cc == ref + [-x for x in ref], f"concat {w}")
+        _req(sorted(prod) == sorted(itertools.product(ref, [1, 2])), f"product {w}")
+        _req(sorted(jn) == sorted((o, s) for s in ref for o in [0, 1, 3] if o % 2 == s % 2), f"join {w}")
+        for nm, g in (("tasks max_branch=2", g1), ("disk", g2), ("tasks", g3)):
+            _req(len(dict(g)) == len(g) and {k: sorted(v) for k, v in g} == grp, f"groupby {nm} = {g} {w}")
+        for se in SE:
+            got = c(b.sum(split_every=se), b.count(split_every=se), b.max(split_every=se), b.min(split_every=se), b.any(split_every=se),
+                    b.all(split_every=se), b.fold(add, initial=0, split_every=se), b.fold(bigger, split_every=se),
+                    b.reduction(sum, sum, split_every=se), b.topk(3, split_every=se), b.topk(2, key=neg, split_every=se),
+                    b.frequencies(split_every=se), b.foldby(key_mod2, add, 0, split_every=se))
+            want = (sum(ref), len(ref), max(ref), min(ref), any(ref), all(ref), sum(ref), max(ref), sum(ref), sorted(ref, reverse=True)[:3],
+                    sorted(ref)[:2])
+            names = ("sum", "count", "max", "min", "any", "all", "fold", "fold(max)", "reduction", "topk", "topk(key)")
+            for nm, g, wv in zip(names, got, want):
+                _req(g == wv, f"{nm}(split_every={se}) = {g}, Python {wv} {w}")
+            _req(dict(got[11]) == dict(collections.Counter(ref)) and len(got[11]) == len(set(ref)), f"frequencies(split_every={se}) {w}")
+            _req(dict(got[12]) == ref_foldby(key_mod2, add, ref, 0), f"foldby(split_every={se}) {w}")
+        for m_ in (1, 2, 5, 9):
+            r = b.repartition(npartitions=m_)
+            _req(r.npartitions == m_ and c(r)[0] == ref, f"repartition({m_}) {w}")
+        _req(c(b.repartition(partition_size=64))[0] == ref, f"repartition(partition_size) {w}")
+        _req(b.take(3) == tuple(parts[0][:3]), f"take {w}")
+        _req(b.take(3, npartitions=-1) == tuple(ref[:3]), f"take all {w}")
 
 
 # ---------------------------------------------------------------------------
